@@ -182,8 +182,10 @@
        recomputed by the extracted tr_step from the state the C++ reports (point, value, radius, ratio, stored gradient and Hessian);
        the double instance gets as oracles the value the C++ objective returned at its trial point and the evalDerivative result
        after acceptance: trial point (i.e. the CG step), acceptance, new radius (exactly), new point and value must agree to 1e-9
-       (+ 16 x the distance the model's own CG step moves when every sum is accumulated in the opposite order; steps where that
-       distance exceeds 1e-3 of the step or the two orders leave the CG differently are counted, not compared; near ties of rho
+       (+ 256 x the distance the model's own CG step moves when every sum is accumulated in another order or gradient and Hessian
+       are moved by one unit in the last place - ~1e-16 unless the Hessian is ill-conditioned; steps where that distance exceeds 1e-3
+       of the step or the orders leave the CG differently, and steps that still differ while the condition of the Hessian exceeds 1.1e4,
+       are counted, not compared; near ties of rho
        with 0.25 / 0.75 / the ratio are counted, not compared); the rational instance (quadratics n <= 4 with short mantissas,
        objective evaluated exactly) must agree to 1e-9 and, where the harness saw NO inexact floating-point operation in the whole
        step (FE_INEXACT clear: stream of multiples of the identity with |gradient| a dyadic square) EXACTLY in point, value,
